@@ -35,7 +35,7 @@ STATES_MEASURE = "distinct (fault kind, offset class, parser outcome class) trip
 FUZZ_ALPHABET = "[]{},:% \t\n0123456789abcz"
 STR_ELEMS = ["a", "b", "c", "dd", "e1", "x_y", "Bob", "k9", "q", "zz", "a-b", "m.n", "7up", "é",
              "a_rather_long_element_name_of_more_than_forty_characters", "ENSG00000139618_BRCA2_homo_sapiens_chr13",
-             "x" * 64]
+             "x" * 64, "'a'", '"x"', "rock'n'roll", "x'", "'", "a'b\"c"]  # quote characters are not delimiters
 
 
 def _gen_ranking_items(w, kind):
